@@ -256,18 +256,50 @@ func c01(c *Ctx) {
 		}
 		want := b.Perft(d)
 		for _, od := range []bool{false, true} {
-			rep.Note(fmt.Sprintf("perft %s d=%d od=%v", fen, d, od))
-			pf := movegen.NewPerft()
-			pf.StartPerft(fen, d, od)
-			rep.Inc("perft_compared")
-			rep.Eval(1)
-			// a position without legal moves yields result 0 and the driver then
-			// reports "stopped" leaving Nodes at 0 -- equal to the rule count 0.
-			if pf.Nodes != want {
-				rep.Viol(fmt.Sprintf("perft:nodes:od=%v", od), fmt.Sprintf("perft(%s, depth %d, onDemand=%v) = %d, rules give %d", fen, d, od, pf.Nodes, want),
-					map[string]interface{}{"fen": fen, "depth": d, "ondemand": od, "engine": pf.Nodes, "refchess": want})
-			}
+			perftOne(rep, fen, d, od, want)
 		}
+	}
+	// (d) deeper perft on promotion-heavy positions: consecutive nodes of one depth are the
+	// same position there (promotion with check to Q and R, both only answered by capturing
+	// the new piece), which the per-depth generators of the perft driver have to cope with.
+	for i, pe := range perftExtra {
+		if !c.Mine(i) {
+			continue
+		}
+		want := rc.MustFEN(pe.fen).Perft(pe.depth)
+		for _, od := range []bool{false, true} {
+			perftOne(rep, pe.fen, pe.depth, od, want)
+		}
+	}
+}
+
+var perftExtra = []struct {
+	fen   string
+	depth int
+}{
+	{"r3k2r/1ppn3p/2q1q1n1/4P3/2q1Pp2/6R1/pbp2PPP/R5K1 b kq - 1 1", 3},
+	{"r3k2r/1ppn3p/2q1q1n1/4P3/2q1Pp2/6R1/pbp2PPP/1R4K1 w kq - 0 1", 4},
+	{"n1n5/PPPk4/8/8/8/8/4Kppp/5N1N b - - 0 1", 4},
+	{"n1n5/PPPk4/8/8/8/8/4Kppp/5N1N w - - 0 1", 4},
+	{"8/Pk6/8/8/8/8/6Kp/8 w - - 0 1", 5},
+	{"r3k2r/p1ppqpb1/bn2pnp1/3PN3/1p2P3/2N2Q1p/PPPBBPPP/R3K2R w KQkq - 0 1", 3},
+	{"rnbq1k1r/pp1Pbppp/2p5/8/2B5/8/PPP1NnPP/RNBQK2R w KQ - 1 8", 3},
+	{"r3k2r/Pppp1ppp/1b3nbN/nP6/BBP1P3/q4N2/Pp1P2PP/R2Q1RK1 w kq - 0 1", 4},
+	{"4k3/8/8/8/8/8/1p4PP/R5K1 b - - 0 1", 4},
+	{"6k1/5ppp/8/8/8/8/1P6/r3K3 w - - 0 1", 5},
+}
+
+func perftOne(rep *Rep, fen string, d int, od bool, want uint64) {
+	rep.Note(fmt.Sprintf("perft %s d=%d od=%v", fen, d, od))
+	pf := movegen.NewPerft()
+	pf.StartPerft(fen, d, od)
+	rep.Inc("perft_compared")
+	rep.Eval(1)
+	// a position without legal moves yields result 0 and the driver then
+	// reports "stopped" leaving Nodes at 0 -- equal to the rule count 0.
+	if pf.Nodes != want {
+		rep.Viol(fmt.Sprintf("perft:nodes:od=%v", od), fmt.Sprintf("perft(%s, depth %d, onDemand=%v) = %d, rules give %d", fen, d, od, pf.Nodes, want),
+			map[string]interface{}{"fen": fen, "depth": d, "ondemand": od, "engine": pf.Nodes, "refchess": want})
 	}
 }
 
@@ -298,6 +330,13 @@ func selftest() int {
 		b, err := rc.ParseFEN(f)
 		if err != nil || b.Validate() != nil || !epConsistent(b) || !castleConsistent(b) {
 			fmt.Fprintln(realStdout, "selftest: invalid extra position", f)
+			bad++
+		}
+	}
+	for _, pe := range perftExtra {
+		b, err := rc.ParseFEN(pe.fen)
+		if err != nil || b.Validate() != nil || !epConsistent(b) || !castleConsistent(b) {
+			fmt.Fprintln(realStdout, "selftest: invalid perft position", pe.fen)
 			bad++
 		}
 	}
